@@ -1620,6 +1620,13 @@ func checkC11e2e(in *exInput) []exFinding {
 		}
 		c := g.call(op, o)
 		c.Element, c.Entry, c.Spelling = in.Element, in.Entry, spelling
+		if op == "resolve" { // Resolve…WithBase with no root value: the document is fetched from the location as the caller writes it
+			var el struct {
+				Ref string `json:"$ref"`
+			}
+			_ = json.Unmarshal(in.Element, &el)
+			c.Kind, c.Ref, c.RootMode, c.Entry, c.Element = in.Entry, el.Ref, "none", "", nil
+		}
 		return c
 	}
 	c := mk(in.Spelling)
@@ -1728,6 +1735,26 @@ func exSpellingVariants(r *rng, g *exGraph) []*exInput {
 			in2.Op, in2.Element, in2.Entry, in2.Pointer = ec.Op, ec.Element, "base_path", ec.Pointer
 			in2.Opts = &exOpts{Abs: r.chance(1, 2)}
 			out = append(out, in2)
+		}
+	}
+	// the resolvers that are given no root value, only its location - in another spelling - and a fragment-only reference
+	for i, sp := range exRootSpellings(r, g.Root, 3) {
+		for _, ec := range exElementCases(g) {
+			if ec.Form != "ref" {
+				continue
+			}
+			kind := exOpKind[ec.Op]
+			if kind == "" {
+				continue
+			}
+			in4 := exInputOf(g)
+			in4.Spelling = sp
+			in4.Op, in4.Element, in4.Entry, in4.Pointer = "resolve", ec.Element, kind, ec.Pointer
+			in4.Opts = &exOpts{}
+			out = append(out, in4)
+			if i > 0 {
+				break
+			}
 		}
 	}
 	// a root location written with a trailing fragment that happens to be the pointer of something the element refers to (the
